@@ -114,6 +114,9 @@ Fixpoint set_nth {A} (l : list A) (n : nat) (x : A) : list A :=
   | y :: r, S n' => y :: set_nth r n' x
   end.
 
+(* NumberValue.ToInt: an index that does not fit a Go int is an OverflowError *)
+Definition int_ovf (z : Z) : bool := (z <? -9223372036854775808) || (z >? 9223372036854775807).
+
 Definition index_of (i : val) : option Z :=
   match i with VI8 z | VInt z => Some z | _ => None end.
 
@@ -140,7 +143,8 @@ Definition get_index (c i : val) : res val :=
   match c with
   | VArr _ l =>
     match index_of i with
-    | Some z => if (z <? 0) || (Z.of_nat (length l) <=? z) then Err IndexOOB
+    | Some z => if int_ovf z then Err Overflow
+                else if (z <? 0) || (Z.of_nat (length l) <=? z) then Err IndexOOB
                 else match nth_error l (Z.to_nat z) with Some x => Ok x | None => Err IndexOOB end
     | None => Err Internal
     end
@@ -154,7 +158,8 @@ Definition set_index (c i v : val) : res val :=
   match c with
   | VArr t l =>
     match index_of i with
-    | Some z => if (z <? 0) || (Z.of_nat (length l) <=? z) then Err IndexOOB
+    | Some z => if int_ovf z then Err Overflow
+                else if (z <? 0) || (Z.of_nat (length l) <=? z) then Err IndexOOB
                 else if subtype (dyn v) t then Ok (VArr t (set_nth l (Z.to_nat z) v))
                 else Err UserOther
     | None => Err Internal
@@ -200,7 +205,8 @@ Fixpoint upd_path (v : val) (p : list step) (upd : val -> res val) : res val :=
     match v with
     | VArr t l =>
       match index_of i with
-      | Some z => if (z <? 0) || (Z.of_nat (length l) <=? z) then Err IndexOOB
+      | Some z => if int_ovf z then Err Overflow
+                else if (z <? 0) || (Z.of_nat (length l) <=? z) then Err IndexOOB
                   else match nth_error l (Z.to_nat z) with
                        | Some x => let* x' := upd_path x r upd in
                                    Ok (VArr t (set_nth l (Z.to_nat z) x'))
@@ -342,6 +348,7 @@ Section interp.
         | _ => Err Internal
         end
       | EForce a =>
+        (* also applies to a non-optional operand (the checker only hints): Some and nil are still unwrapped *)
         let* (va, r1) := eval n' a r in
         match va with
         | VSome v => Ok (v, r1)
@@ -492,7 +499,10 @@ Section interp.
         | _ => Err Internal
         end
       | SIfLet e tv b1 b2 =>
-        let* (v, r1) := eval n' e r in
+        let* (v0, r1) := eval n' e r in
+        (* the optional binding is a variable declaration: the value is transferred and
+           converted to the declared (optional) type before it is tested *)
+        let* v := transfer_check v0 tv tv in
         match v with
         | VSome w =>
           let* (o, r2) := exec_block n' b1 (r1 ++ [Some w]) in Ok (o, firstn (length r1) r2)
